@@ -64,6 +64,7 @@ func ReadFile(r io.Reader) (File, []string, error) {
 				if err := expectAnyOfNext(tr, tokenKindCloseSquare); err != nil {
 					return f, warnings, err
 				}
+				optNewline(tr)
 			}
 			continue
 		case tokenKindEnum:
@@ -76,6 +77,7 @@ func ReadFile(r io.Reader) (File, []string, error) {
 			}
 			en.Comment = strings.Join(nextCommentLines, "\n")
 			f.Enums = append(f.Enums, en)
+			nextRecordBitFlags = false
 		case tokenKindReadOnly:
 			nextRecordReadOnly = true
 			if !tr.Next() {
